@@ -124,6 +124,11 @@ pub fn redeem_arrows(r: &RedeemNode) -> Vec<(T, T)> {
 /// (The AST is instantiated one object per AST node, so the library's post-order from the root visits
 /// exactly the AST's nodes; this computes the same order on the AST.)
 pub fn ast_post_order(dag: &Dag) -> Vec<usize> {
+    ast_post_order_mode(dag, false)
+}
+
+/// `commit`: disconnect nodes have no right child (commitment-time DAG shape).
+pub fn ast_post_order_mode(dag: &Dag, commit: bool) -> Vec<usize> {
     let mut order = Vec::new();
     let mut seen = vec![false; dag.len()];
     // iterative post-order, left child first
@@ -138,7 +143,10 @@ pub fn ast_post_order(dag: &Dag) -> Vec<usize> {
             continue;
         }
         stack.push((n, true));
-        let (a, b) = dag.nodes[n].children();
+        let (a, mut b) = dag.nodes[n].children();
+        if commit && matches!(dag.nodes[n], Op::Disconnect(..)) {
+            b = None;
+        }
         // disconnect: the library iterates (left, right) as well
         if let Some(b) = b {
             if !seen[b] {
